@@ -352,6 +352,18 @@ func genRef(r *Rand, p *Plan, tier string, focus string) {
 			}
 			scripts = append(scripts, s)
 		}
+		if focus == "C11" && r.Chance(15) {
+			// the same command line asked for twice, split differently between the command
+			// name and its arguments: each split is judged by the rules of its own name
+			u := g.pickUser(scope)
+			tail := PickOf(r, "route", "route vrf", "interface", "<cr>")
+			a := SessAuthor(g.nextSid(), 0xc0, flags, u, []string{"service=shell", "cmd=show", "cmd-arg=ip", "cmd-arg=" + tail})
+			b := SessAuthor(g.nextSid(), 0xc0, flags, u, []string{"service=shell", "cmd=show ip", "cmd-arg=" + tail})
+			if r.Bool() {
+				a, b = b, a
+			}
+			scripts = append(scripts, a, b)
+		}
 		if (focus == "C19" && !wrongKey && len(scripts) >= 2 && r.Chance(25)) || (focus == "C07" && !wrongKey && len(scripts) >= 2 && r.Chance(8)) {
 			// a connection that starts out right (also with the single-connect flag, also in
 			// the clear) and later carries a packet obfuscated with another key
